@@ -84,7 +84,7 @@ def write_saf(path, columns, ch_ids, fs, north_rot, eol="\n", ndat=None, ids_wri
     n = len(columns[0])
     ndat = n if ndat is None else ndat
     lines = ["SESAME ASCII data format (saf) v. 1    (this line must not be modified)",
-             f"SAMP_FREQ = {int(fs)}",
+             f"SAMP_FREQ = {fs}" if isinstance(fs, str) else f"SAMP_FREQ = {int(fs)}",       # (a str is written as given: "100.0", "62.5")
              f"NDAT = {int(ndat):010d}" if rich_header else f"NDAT = {int(ndat)}"]     # the real example pads with zeros
     if rich_header:
         lines += ["START_TIME = 2021 11 22 13 31 10.000",
